@@ -154,6 +154,15 @@ class AioRunner:
                 kw["skip_missing"] = True
             if o.get("max_att", 0) != 0:
                 kw["max_attempts"] = o["max_att"]
+        hk = o.get("hkind")
+        if hk in ("partial_kw", "partial_pos") and "want" in cell:
+            import functools
+            if hk == "partial_kw":
+                cb = functools.partial(cb, p=-1, frozen=7)
+                cell["want"] = (cell["want"][0], dict({"p": -1, "frozen": 7}, **cell["want"][1]))
+            else:
+                cb = functools.partial(cb, "front")
+                cell["want"] = (("front",) + cell["want"][0], cell["want"][1])
         if o.get("badrepr"):
             from .impl_thr import BadRepr
             kw["kwargs"] = dict(kw.get("kwargs") or {}, conn=BadRepr())
